@@ -113,7 +113,10 @@ func (r *Run) Capped() bool { r.mu.Lock(); defer r.mu.Unlock(); return r.capped 
 func (r *Run) MarkCapped() { r.mu.Lock(); r.capped = true; r.mu.Unlock() }
 
 func (r *Run) loadKnown() {
-	f, err := os.Open(filepath.Join(Root(), "known_findings.jsonl"))
+	// /verif/KNOWN_FINDINGS.txt, one record per line (never written at run time):
+	//   known: property=<id> key=<signature> :: <what fails>
+	//   fixed: property=<id> <commit> <what failed>      (suppresses nothing)
+	f, err := os.Open(filepath.Join(Root(), "KNOWN_FINDINGS.txt"))
 	if err != nil {
 		return
 	}
@@ -122,11 +125,23 @@ func (r *Run) loadKnown() {
 	sc.Buffer(make([]byte, 1<<20), 1<<20)
 	for sc.Scan() {
 		line := strings.TrimSpace(sc.Text())
-		if line == "" || strings.HasPrefix(line, "#") {
+		if !strings.HasPrefix(line, "known:") {
 			continue
 		}
+		rest := strings.TrimSpace(strings.TrimPrefix(line, "known:"))
+		head, what, _ := strings.Cut(rest, "::")
 		var k finding
-		if json.Unmarshal([]byte(line), &k) == nil {
+		k.Status = "known"
+		k.What = strings.TrimSpace(what)
+		for _, f := range strings.Fields(head) {
+			if v, ok := strings.CutPrefix(f, "property="); ok {
+				k.Property = v
+			}
+			if v, ok := strings.CutPrefix(f, "key="); ok {
+				k.Key = v
+			}
+		}
+		if k.Property != "" && k.Key != "" {
 			r.known = append(r.known, k)
 		}
 	}
